@@ -16,6 +16,7 @@ import (
 	"sort"
 	"strings"
 	"sync"
+	"time"
 
 	"github.com/Dash-Industry-Forum/livesim2/internal/vshim/vref"
 	"github.com/Dash-Industry-Forum/livesim2/pkg/logging"
@@ -27,6 +28,11 @@ var (
 )
 
 const vBundledRoot = "testdata/assets"
+
+// The process's local time zone is part of the environment, not of the request: every harness runs with a zone that is
+// neither UTC nor a whole number of hours away from it, so that anything rendered in local time differs from the
+// reference, which works in UTC throughout.
+func init() { time.Local = time.FixedZone("VERIF", -(3*3600 + 30*60)) }
 
 // vServer returns a (cached) server on the given VoD root; no sockets are used.
 func vServer(root string) (*Server, error) {
